@@ -153,3 +153,13 @@ package cmd
 //@ func remainingReloadRetirementBudget
 //@   dyncalls noeffect
 //@   ensures 0 <= result && (budget <= 0 ==> result == 0)
+
+// C20 (a refused request does not disturb the reload in progress): the readiness deadline is armed once, before
+// the wait loop - signals that are ignored during the wait take a loop iteration but never re-arm it.
+//@ func waitReloadReadyOrSignal
+//@   anchorsonly
+//@   nonilcheck
+//@   dyncalls noeffect
+//@   modifies *
+//@   at call time.NewTimer#1 assert a0 == timeout && timeout > 0 && calls("loop#1") == 0
+//@   ensures nocalls("time.After") && calls("time.NewTimer") <= 1
